@@ -67,7 +67,8 @@ MapUnit(l) ==
                  JObj(<<KV("a", JNum(4)), KV("b", JBool(TRUE))>>) >>
   IN [prop |-> "C11", comb |-> "anyOfMaps", form |-> "inline",
       schema |-> ("type" :> <<"object">>) @@ ("properties" :> <<[k |-> "x", s |-> [anyOf |-> br]]>>) @@ ("required" :> <<"x">>),
-      defs |-> <<>>, docs |-> [i \in DOMAIN docs |-> Wrap(docs[i])], nobuild |-> <<>>]
+      defs |-> <<>>, docs |-> [i \in DOMAIN docs |-> Wrap(docs[i])], nobuild |-> <<>>,
+      keep |-> TRUE]       \* rare shape: never dropped by sampling
 
 u == IF comb = "anyOfMaps" THEN MapUnit(lst) ELSE Unit(comb, form, lst)
 Set == lst # <<0>>
